@@ -2,6 +2,7 @@ package engine
 
 import (
 	"fmt"
+	"go/constant"
 	"go/token"
 	"go/types"
 	"os"
@@ -437,6 +438,16 @@ func (q *PathQuery) run() ([]*PathState, error) {
 					}
 					nm[x] = ssa.NewConst(nil, Deref(x.Type()))
 					st.mem = nm
+				} else if cells[x] != cellNone {
+					// … and 0 / "" / false for basic element types (a named result that no path has assigned yet)
+					if z := zeroConst(Deref(x.Type())); z != nil {
+						nm := make(map[*ssa.Alloc]ssa.Value, len(st.mem)+1)
+						for k, v := range st.mem {
+							nm[k] = v
+						}
+						nm[x] = z
+						st.mem = nm
+					}
 				}
 			case *ssa.Store:
 				if al, ok := x.Addr.(*ssa.Alloc); ok && cells[al] != cellNone {
@@ -1049,4 +1060,21 @@ func paramStored(cf *ssa.Function, d *ssa.Defer, al *ssa.Alloc) bool {
 		}
 	}
 	return false
+}
+
+// zeroConst returns the zero value of a basic type as a constant (nil for other types).
+func zeroConst(t types.Type) *ssa.Const {
+	b, ok := t.Underlying().(*types.Basic)
+	if !ok {
+		return nil
+	}
+	switch {
+	case b.Info()&types.IsInteger != 0:
+		return ssa.NewConst(constant.MakeInt64(0), t)
+	case b.Info()&types.IsString != 0:
+		return ssa.NewConst(constant.MakeString(""), t)
+	case b.Info()&types.IsBoolean != 0:
+		return ssa.NewConst(constant.MakeBool(false), t)
+	}
+	return nil
 }
